@@ -6,7 +6,7 @@
 (* bit-serially -- and TLC compares the two on all byte operands and on a   *)
 (* boundary lattice of word operands.                                       *)
 (***************************************************************************)
-EXTENDS Alu, TLC
+EXTENDS Alu, Bitwise, TLC
 
 VARIABLES op, w, a, c
 vars == <<op, w, a, c>>
@@ -17,6 +17,8 @@ Lattice16 ==
   \cup UNION {{Pow2(k) - 1, Pow2(k), Pow2(k) + 1, 65536 - Pow2(k), 65535 - Pow2(k), 65537 - Pow2(k)} : k \in 2 .. 15}
 
 Vals(ww) == IF ww = 8 THEN Byte ELSE Lattice16 \cap Word
+AxQuick == Lattice16 \cap Word
+AxAll == Word
 
 BinOps == {"add", "adc", "sub", "sbb", "cmp"}
 
@@ -91,5 +93,233 @@ UnaryLaws ==
      /\ FlagSet(n.fl, SF) = (Sx(w, n.res) < 0)
      /\ \A b \in Vals(w) :
           LET cm == Cmp(w, a, b)  sb == SubW(w, a, b, 0) IN cm.res = a /\ cm.fl = sb.fl
+
+
+(***************************************************************************)
+(* C02: logic, shifts and rotates                                          *)
+(***************************************************************************)
+LogicOps == {"and", "or", "xor", "test"}
+ShiftOps == {"sal", "shr", "sar", "rol", "ror", "rcl", "rcr"}
+CONSTANT MaxCount          \* counts 0 .. MaxCount are compared (255 = every count)
+
+InitC02 == op \in LogicOps \cup ShiftOps \cup {"not"} /\ w \in {8, 16} /\ a = -1 /\ c \in {0, 1}
+SpecC02 == InitC02 /\ [][Next]_vars
+
+\* second definition of the bitwise result: the Java-implemented operators of Bitwise
+LogicLaws ==
+  (a >= 0 /\ op \in LogicOps) =>
+  \A b \in Vals(w) :
+    LET r == Logic(op, w, a, b)
+        v == CASE op \in {"and", "test"} -> a & b [] op = "or" -> a | b [] op = "xor" -> a ^^ b
+    IN /\ r.res = (IF op = "test" THEN a ELSE v)
+       /\ ~FlagSet(r.fl, CF) /\ ~FlagSet(r.fl, OF)
+       /\ FlagSet(r.fl, ZF) = (v = 0) /\ FlagSet(r.fl, SF) = (v >= Pow2(w - 1))
+       /\ FlagSet(r.fl, PF) = Parity8(v % 256)
+       /\ r.def = CF + OF + SF + ZF + PF /\ r.undef = AF
+
+NotLaws ==
+  (a >= 0 /\ op = "not") =>
+    LET r == NotW(w, a) IN r.res = (a ^^ (Pow2(w) - 1)) /\ r.def = 0 /\ r.undef = 0 /\ r.fl = 0
+
+\* n single-bit steps (the manual's loop) agree with the closed form, for every count
+RECURSIVE OrbitOK(_, _, _)
+OrbitOK(vv, cc, n) ==
+  /\ ShiftResult(op, w, a, c, n, <<vv, cc>>) = Shift(op, w, a, c, n)
+  /\ (n = MaxCount \/ LET s == Step1(op, w, vv, cc) IN OrbitOK(s[1], s[2], n + 1))
+
+OrbitAgree == (a >= 0 /\ op \in ShiftOps) => OrbitOK(a, c, 0)
+
+\* what the property states about a single count, on the closed form
+ShiftLaws ==
+  (a >= 0 /\ op \in ShiftOps) =>
+  /\ LET r0 == Shift(op, w, a, c, 0) IN r0.res = a /\ r0.def = 0 /\ r0.undef = 0 /\ r0.fl = 0
+  /\ \A n \in 1 .. MaxCount :
+       LET r == Shift(op, w, a, c, n) IN
+       /\ r.res \in 0 .. Pow2(w) - 1
+       /\ (IsShift(op) => /\ FlagSet(r.fl, ZF) = (r.res = 0)
+                           /\ FlagSet(r.fl, SF) = (r.res >= Pow2(w - 1))
+                           /\ FlagSet(r.fl, PF) = Parity8(r.res % 256)
+                           /\ (r.def & (SF + ZF + PF + CF)) = SF + ZF + PF + CF)
+       /\ (~IsShift(op) => (r.def & (SF + ZF + PF + AF)) = 0 /\ (r.undef & (SF + ZF + PF + AF + CF)) = 0)
+       /\ ((r.def & OF) # 0) = (n = 1)
+       \* numeric meaning
+       /\ (op = "sal" /\ n < w => r.res = (a * Pow2(n)) % Pow2(w))
+       /\ (op = "shr" /\ n < w => r.res = a \div Pow2(n))
+       /\ (op = "sar" /\ n < w => Sx(w, r.res) = Sx(w, a) \div Pow2(n))
+       /\ (op \in {"rol", "ror"} /\ n % w = 0 => r.res = a)
+       /\ (op \in {"rcl", "rcr"} /\ n % (w + 1) = 0 => r.res = a /\ FlagSet(r.fl, CF) = (c = 1))
+       /\ (op \in {"sal", "shr"} /\ n > w => r.res = 0 /\ ~FlagSet(r.fl, CF))
+       /\ (op = "sar" /\ n >= w => r.res = (IF a >= Pow2(w - 1) THEN Pow2(w) - 1 ELSE 0))
+
+(***************************************************************************)
+(* C03: multiply, divide, adjusts                                          *)
+(***************************************************************************)
+MulDivOps == {"mul", "imul", "div", "idiv"}
+AdjustOps == {"aaa", "aas", "daa", "das", "aam", "aad", "cbw", "cwd"}
+CONSTANT AxVals            \* AX values explored for the byte multiply/divide forms
+
+InitC03 == /\ op \in MulDivOps \cup AdjustOps \cup {"bcd"} /\ a = -1 /\ c \in {0, 1}
+           /\ w \in (IF op \in MulDivOps THEN {8, 16} ELSE {8})
+NextC03 == a = -1 /\ UNCHANGED <<op, w, c>> /\
+           a' \in (IF op \in MulDivOps /\ w = 8 THEN AxVals
+                    ELSE IF op \in MulDivOps THEN Lattice16 \cap Word
+                    ELSE IF op = "bcd" THEN 0 .. 255 ELSE 0 .. 255)
+SpecC03 == InitC03 /\ [][NextC03]_vars
+
+Add32(p, q) == LET lo == p[2] + q[2] IN << (p[1] + q[1] + lo \div 65536) % 65536, lo % 65536 >>
+Sext32(x) == << IF x >= 32768 THEN 65535 ELSE 0, x >>
+Abs(x) == IF x < 0 THEN -x ELSE x
+
+ByteMulDivLaws ==
+  (a >= 0 /\ op \in MulDivOps /\ w = 8) =>
+  \A v \in Byte :
+    LET r == MulDiv(op, 8, a, 0, v)
+        al == Lo(a)
+    IN CASE op = "mul" ->
+              r.ok /\ r.ax = al * v /\ FlagSet(r.fl, CF) = (al * v > 255)
+              /\ FlagSet(r.fl, OF) = FlagSet(r.fl, CF)
+         [] op = "imul" ->
+              LET p == Sx(8, al) * Sx(8, v) IN
+              r.ok /\ Sx(16, r.ax) = p /\ FlagSet(r.fl, CF) = ~InRange(8, p)
+              /\ FlagSet(r.fl, OF) = FlagSet(r.fl, CF)
+         [] op = "div" ->
+              IF v = 0 \/ a \div v > 255 THEN ~r.ok
+              ELSE r.ok /\ Lo(r.ax) * v + Hi(r.ax) = a /\ Hi(r.ax) < v
+         [] op = "idiv" ->
+              LET n == Sx(16, a)  d == Sx(8, v) IN
+              IF d = 0 THEN ~r.ok
+              ELSE LET q == Sx(8, Lo(r.ax))  rm == Sx(8, Hi(r.ax)) IN
+                   IF r.ok THEN /\ q * d + rm = n /\ Abs(rm) < Abs(d)
+                                /\ (rm = 0 \/ (rm < 0) = (n < 0))
+                                /\ r.qmin = (q = -128)
+                   ELSE \* no byte quotient exists: |n| >= 128 * |d| (+ remainder)
+                        \A q2 \in -128 .. 127 : ~(Abs(n - q2 * d) < Abs(d) /\ (n - q2 * d = 0 \/ (n - q2 * d < 0) = (n < 0)))
+
+WordMulDivLaws ==
+  (a >= 0 /\ op \in MulDivOps /\ w = 16) =>
+  \A v \in Lattice16 \cap Word :
+    /\ LET p == Mul16(a, v) IN
+       /\ p = Mul16(v, a)
+       /\ (a < 32768 => p[1] * 65536 + p[2] = a * v \/ p[1] >= 32768)
+       /\ (a < 32768 /\ v < 32768 => p[1] * 65536 + p[2] = a * v)
+       /\ (a >= 32768 => p = Add32(Mul16(a - 32768, v), << v \div 2, (v % 2) * 32768 >>))
+    /\ LET p == IMul16(a, v) IN
+       /\ p = IMul16(v, a)
+       /\ (Abs(Sx(16, a)) < 256 /\ TRUE => LET m == Sx(16, a) * Sx(16, v) IN
+              p = << (m \div 65536) % 65536, m % 65536 >>)
+    /\ \A dx \in ({0, 1, 2, 255, 256, 32767, 32768, 65534, 65535} \cup {v - 1, v, v + 1}) \cap Word :
+         LET rd == MulDiv("div", 16, a, dx, v)
+             ri == MulDiv("idiv", 16, a, dx, v)
+             rm == MulDiv("mul", 16, a, dx, v)
+             rim == MulDiv("imul", 16, a, dx, v)
+         IN /\ (op = "div" => IF v = 0 \/ dx >= v THEN ~rd.ok
+                               ELSE rd.ok /\ rd.dx < v /\ Add32(Mul16(rd.ax, v), <<0, rd.dx>>) = <<dx, a>>)
+            /\ (op = "idiv" /\ ri.ok =>
+                  /\ Add32(IMul16(ri.ax, v), Sext32(ri.dx)) = <<dx, a>>
+                  /\ Abs(Sx(16, ri.dx)) < Abs(Sx(16, v))
+                  /\ (ri.dx = 0 \/ (ri.dx >= 32768) = (dx >= 32768))
+                  /\ ri.qmin = (ri.ax = 32768))
+            /\ (op = "idiv" /\ v = 0 => ~ri.ok)
+            /\ (op = "mul" => rm.ok /\ <<rm.dx, rm.ax>> = Mul16(a, v)
+                               /\ FlagSet(rm.fl, CF) = (rm.dx # 0) /\ FlagSet(rm.fl, OF) = FlagSet(rm.fl, CF))
+            /\ (op = "imul" => rim.ok /\ <<rim.dx, rim.ax>> = IMul16(a, v)
+                               /\ FlagSet(rim.fl, CF) = (Sext32(rim.ax) # <<rim.dx, rim.ax>>)
+                               /\ FlagSet(rim.fl, OF) = FlagSet(rim.fl, CF))
+
+\* a = AH (for cbw/cwd/aad: high byte), every AL inside
+IsBcd(x) == x % 16 <= 9 /\ x \div 16 <= 9
+BcdVal(x) == (x \div 16) * 10 + (x % 16)
+AdjustLaws ==
+  (a >= 0 /\ op \in AdjustOps) =>
+  \A al \in Byte :
+    LET ax == a * 256 + al IN
+    \A f \in {c, c + AF, c + 65518 - 2048, c + AF + 65518 - 2048 - 16} :   \* CF = c, AF both ways, two backgrounds
+      LET r == Adjust(op, ax, 4660, f) IN
+      /\ r.ax \in Word /\ r.dx \in Word /\ (r.def & r.undef) = 0
+      /\ (op = "cbw" => Sx(16, r.ax) = Sx(8, al) /\ r.dx = 4660 /\ r.def = 0 /\ r.undef = 0)
+      /\ (op = "cwd" => r.ax = ax /\ r.dx = (IF ax >= 32768 THEN 65535 ELSE 0) /\ r.def = 0)
+      /\ (op = "aam" => Hi(r.ax) * 10 + Lo(r.ax) = al /\ Lo(r.ax) < 10
+                         /\ FlagSet(r.fl, ZF) = (Lo(r.ax) = 0) /\ ~FlagSet(r.fl, SF))
+      /\ (op = "aad" => Hi(r.ax) = 0 /\ Lo(r.ax) = (a * 10 + al) % 256)
+      /\ (op \in {"aaa", "aas"} => Lo(r.ax) < 16 /\ FlagSet(r.fl, CF) = FlagSet(r.fl, AF)
+                                     /\ r.def = AF + CF)
+      /\ (op \in {"daa", "das"} => Hi(r.ax) = a /\ r.def = AF + CF + SF + ZF + PF /\ r.undef = OF)
+
+\* BCD theorems: a = x (packed BCD or digit), every y inside, c = carry-in
+BcdLaws ==
+  (a >= 0 /\ op = "bcd") =>
+  \A y \in Byte :
+    /\ (IsBcd(a) /\ IsBcd(y) =>
+         \* the hardware reading always yields the decimal sum / difference ...
+         /\ LET s == AddW(8, a, y, c)
+                 r == AdjustHw("daa", s.res, 0, s.fl)
+                 m == Adjust("daa", s.res, 0, s.fl)
+                 t == BcdVal(a) + BcdVal(y) + c
+             IN /\ IsBcd(Lo(r.ax)) /\ BcdVal(Lo(r.ax)) = t % 100 /\ FlagSet(r.fl, CF) = (t >= 100)
+                \* ... and the literal pseudo-code agrees with it unless the +6 step wraps the byte
+                /\ (s.res < 250 => m = r)
+         /\ LET s == SubW(8, a, y, c)
+                 r == AdjustHw("das", s.res, 0, s.fl)
+                 m == Adjust("das", s.res, 0, s.fl)
+                 t == BcdVal(a) - BcdVal(y) - c
+             IN /\ IsBcd(Lo(r.ax)) /\ BcdVal(Lo(r.ax)) = t % 100 /\ FlagSet(r.fl, CF) = (t < 0)
+                /\ (s.res >= 6 => m = r))
+    /\ (a <= 9 /\ y <= 9 =>
+         /\ LET s == AddW(8, a, y, c)
+                 r == Adjust("aaa", 5 * 256 + s.res, 0, s.fl)
+                 t == a + y + c
+             IN Lo(r.ax) = t % 10 /\ Hi(r.ax) = 5 + t \div 10 /\ FlagSet(r.fl, CF) = (t >= 10)
+         /\ LET s == SubW(8, a, y, c)
+                 r == Adjust("aas", 5 * 256 + s.res, 0, s.fl)
+                 t == a - y - c
+             IN Lo(r.ax) = t % 10 /\ Hi(r.ax) = (IF t < 0 THEN 4 ELSE 5) /\ FlagSet(r.fl, CF) = (t < 0)
+         /\ LET m == Mul8(a, 0, y)
+                 r == Adjust("aam", m.ax, 0, 0)
+             IN Hi(r.ax) = (a * y) \div 10 /\ Lo(r.ax) = (a * y) % 10
+         /\ LET r == Adjust("aad", a * 256 + y, 0, 0) IN r.ax = a * 10 + y)
+
+(***************************************************************************)
+(* C06: conditions                                                         *)
+(***************************************************************************)
+InitC06 == op \in {"flags", "compare", "cx"} /\ w = 8 /\ a = -1 /\ c \in {0, 1}
+SpecC06 == InitC06 /\ [][Next]_vars
+
+\* a = high byte of the flag word, every low byte inside: all 2^16 flag words
+Complementary ==
+  (a >= 0 /\ op = "flags" /\ c = 0) =>
+  \A lo \in Byte :
+    LET f == a * 256 + lo IN
+    /\ \A mn \in CondMnemonics : Cond(mn, f) # Cond(Complement(mn), f)
+    /\ Cond("jb", f) = Cond("jc", f) /\ Cond("jae", f) = Cond("jnc", f)
+    /\ Cond("jmp", f)
+    /\ \A s \in {"jnbe", "jnb", "jnae", "jna", "jz", "jnle", "jnl", "jnge", "jng", "jnz", "jpo", "jpe"} :
+         Canon(s) \in CondMnemonics
+
+\* the table means what the manual says about comparing: flags := a - b
+CompareMeaning ==
+  (a >= 0 /\ op = "compare" /\ c = 0) =>
+  \A b \in Byte :
+    LET f == SubW(8, a, b, 0).fl
+        sa == Sx(8, a)  sb == Sx(8, b)
+    IN /\ Cond("ja", f) = (a > b) /\ Cond("jae", f) = (a >= b)
+       /\ Cond("jb", f) = (a < b) /\ Cond("jbe", f) = (a <= b)
+       /\ Cond("jg", f) = (sa > sb) /\ Cond("jge", f) = (sa >= sb)
+       /\ Cond("jl", f) = (sa < sb) /\ Cond("jle", f) = (sa <= sb)
+       /\ Cond("je", f) = (a = b) /\ Cond("jne", f) = (a # b)
+       /\ Cond("js", f) = (Sx(8, (a - b) % 256) < 0)
+       /\ Cond("jo", f) = ~InRange(8, sa - sb)
+       /\ Cond("jp", f) = Parity8((a - b) % 256)
+
+\* a = high byte of CX, every low byte inside; c = ZF
+LoopMeaning ==
+  (a >= 0 /\ op = "cx") =>
+  \A lo \in Byte :
+    LET cx == a * 256 + lo
+        f == c * ZF
+        cx2 == (cx - 1) % 65536
+    IN /\ LoopTaken("loop", cx2, f) = (cx # 1)
+       /\ LoopTaken("loope", cx2, f) = (cx # 1 /\ c = 1)
+       /\ LoopTaken("loopne", cx2, f) = (cx # 1 /\ c = 0)
+       /\ Canon("loopz") = "loope" /\ Canon("loopnz") = "loopne"
 
 =============================================================================
